@@ -68,6 +68,18 @@ package shard
 //@   callee bytes.Equal
 //@   requires [magic_read_insists_on_four_bytes] fullReadAttempted(a0)
 
+// Which errors may abort a restore: a record that cannot be decoded aborts only when the
+// caller did not ask to ignore errors; an object that the shard refuses as expired or as
+// already removed (its tombstone was restored first) is part of a valid dump and must not
+// abort. resultOf(e, callee) holds when e is, by data flow on the path taken, the result of that call.
+//@ ghost pred expiredClass(e error) bool
+//@ callrule restore_expired_class in (*Shard).Restore
+//@   property C46
+//@   callee shard.IsErrObjectExpired
+//@   defines result == expiredClass(a0)
+
 //@ func (*Shard).Restore
 //@   property C46
 //@   mode bv
+//@   ensures [corrupted_record_aborts_only_if_not_ignored] err != nil && resultOf(err, "(*object.Object).Unmarshal") ==> !ignoreErrors
+//@   ensures [expired_or_removed_objects_do_not_abort] err != nil && resultOf(err, "(*shard.Shard).Put") ==> !expiredClass(err) && !errIs(err, apistatus.ErrObjectAlreadyRemoved)
